@@ -198,7 +198,7 @@ def root(t):
     """innermost base of a place-like term"""
     while True:
         t = strip(t)
-        if t[0] in ('field', 'downcast', 'index'):
+        if t[0] in ('field', 'downcast', 'index', 'cindex', 'subslice'):
             t = t[1]
         elif t[0] == 'call' and t[2] and ('remap_' in t[1] or 'as_ref' in t[1] or 'as_mut' in t[1] or 'reborrow' in t[1]):
             t = t[2][0]
@@ -271,6 +271,8 @@ def strip_all(t):
         return ('downcast', strip_all(t[1]), t[2])
     if k in ('index', 'discr'):
         return (k, strip_all(t[1]))
+    if k in ('cindex', 'subslice'):
+        return (k, strip_all(t[1])) + tuple(t[2:])
     if k == 'call':
         return ('call', t[1], tuple(strip_all(a) for a in t[2]))
     if k == 'cast':
